@@ -1760,6 +1760,12 @@ pub fn check_c02(p: &Prob, st: &Sets, r: &SolveResp) -> Result<(), String> {
     if snap == 99 {
         return Err(format!("{}: the returned certificate is not the kappa-normalisation of any recorded iterate", name));
     }
+    // C02.rollback_never_infeasible (round 3): the returned iterate differs from the last
+    // recorded one only on the insufficient-progress rollback path, where `ktratio < 1`; with
+    // the gate (1/reduced_tol_ktratio)*1000 >= 1 an Almost*Infeasible verdict is impossible there
+    if almost && snap >= 1 && (1.0 / st.rtol[5]) * 1000.0 >= 1.0 {
+        return Err(format!("{}: verdict reached on the insufficient-progress rollback path (returned iterate is {} passes old) although (1/reduced_tol_ktratio)*1000 >= 1 — contradicts C02.rollback_never_infeasible", name, snap));
+    }
     let t = if almost { &st.rtol } else { &st.tol };
     if primal {
         in_cones(&p.cones, &r.z, &u.keep, true).map_err(|e| format!("{}: z not in K*: {}", name, e))?;
